@@ -28,7 +28,13 @@ func (n *Nodis) ZAdd(key string, member string, score float64) int64 {
 func (n *Nodis) ZAddXX(key string, member string, score float64) int64 {
 	var v int64
 	_ = n.exec(func(tx *Tx) error {
-		meta := tx.writeKey(key, n.newZSet)
+		meta := tx.writeKey(key, nil)
+		if !meta.isOk() {
+			return nil
+		}
+		if !meta.value.(*zset.SortedSet).ZExists(member) {
+			return nil
+		}
 		v = meta.value.(*zset.SortedSet).ZAddXX(member, score)
 		n.signalModifiedKey(key, meta)
 		n.notify(func() []patch.Op {
